@@ -116,6 +116,10 @@ def cases(tier, seed, i, n):
         yield gen.mark('all 8x8x2x2 negotiated configurations, both directions')
         for big in ((20 << 20) + 1, (16 << 20) + 300, 70000000 if tier == 'thorough' else (33 << 20)):
             yield dict(kind='s2c', cfg=dict(sb=15, cb=15, snct=False, cnct=False, sp=0), hseed=big, style='sync', mixed=False, big=big)
+        # ... and messages at the highest ratio deflate reaches (a run of one byte, of two alternating bytes: ~1000:1 -
+        # a few KiB of frame payload become many MiB)
+        for big, fill in (((12 << 20) + 7, 'byte'), ((9 << 20) + 1, 'pair')):
+            yield dict(kind='s2c', cfg=dict(sb=15, cb=15, snct=False, cnct=False, sp=0), hseed=big, style='sync', mixed=False, big=big, fill=fill)
         more = 1500 if tier == 'quick' else 80000
         for _ in range(more):
             cfg = dict(sb=rnd.randint(8, 15), cb=rnd.randint(8, 15), snct=rnd.random() < 0.5,
@@ -257,6 +261,8 @@ def run_s2c(case, acc):
         # one message that inflates to tens of MiB from a ~100 KB frame, then ordinary ones: nothing may be cut
         # off, whatever limit an implementation puts on a single inflate call
         blk = bytes(range(256)) * 16
+        if case.get('fill'):
+            blk = {'byte': b'\x00', 'pair': b'ab'}[case['fill']] * 2048
         msgs = [b'first', (blk * (case['big'] // len(blk) + 1))[:case['big']] + b'<END>', b'after the big one', blk]
     peer = deflate_peer.Peer(cfg['sb'], cfg['cb'], cfg['snct'], cfg['cnct'])
     body = b''
